@@ -110,6 +110,7 @@ def run(p: Program, rep: Report, tier: str) -> None:
             stores = _slot_stores(cb, hslot)
             if not stores:
                 rep.violation("R20.1", construct(cb, text=f"{hname} never assigned"), where(cb), f"{side}: the capture callback never stores the inner application's headers")
+            stores = [(st, d_) for st, v0 in stores for d_ in (defs_of(cb, v0) if isinstance(v0, ast.Name) else [v0]) if not (isinstance(d_, ast.Constant) and d_.value is None)]
             for st, val in stores:
                 r = p.resolve_call(cb, val) if isinstance(val, ast.Call) else None
                 if isinstance(r, ClassInfo) and r.fq == "baize.datastructures:Headers" and folds:
@@ -146,6 +147,10 @@ def run(p: Program, rep: Report, tier: str) -> None:
             st_stores = _slot_stores(cb, sslot)
             txt = [ast.unparse(v_).replace('"', "'") for _, v_ in st_stores]
             want = ["int(status.split(' ')[0])"] if side == "wsgi" else ["message['status']"]
+            if side == "wsgi":
+                # the first blank-separated token of the status line, however it is cut off
+                import re as _re
+                txt = ["int(status.split(' ')[0])" if _re.fullmatch(r"int\(status\.(split\(' '(, 1)?\)|partition\(' '\))\[0\]\)", t_) else t_ for t_ in txt]
             if txt == want:
                 rep.ok("R20.4", f"{side}: status captured as {txt[0]}")
             else:
@@ -226,7 +231,16 @@ def run(p: Program, rep: Report, tier: str) -> None:
     if en is None:
         raise AnalysisError("ensure_next vanished")
     rep.analysed(en.fq)
-    gen = en.nested.get("generator")
+    gen = nested_fn(en, "generator")
+    argmap: Dict[str, str] = {}
+    if gen is None:
+        # the re-emitting generator may be a private module-level generator called with the captured values as arguments
+        for n in walk_shallow(en.node):
+            if isinstance(n, ast.Return) and isinstance(n.value, ast.Call):
+                g_ = p.resolve_call(en, n.value)
+                if isinstance(g_, FuncInfo) and g_.is_generator() and not n.value.keywords and len(n.value.args) <= len(g_.params):
+                    gen = g_
+                    argmap = {pn: ast.unparse(a) for pn, a in zip(g_.params, n.value.args)}
     it_names: Set[str] = set()
     advanced: List[str] = []
     anon_advance = None
@@ -247,6 +261,7 @@ def run(p: Program, rep: Report, tier: str) -> None:
     drained = [ast.unparse(n.value) for n in ast.walk(gen.node) if isinstance(n, ast.YieldFrom)] if gen else []
     for_drained = [ast.unparse(n.iter) for n in ast.walk(gen.node) if isinstance(n, ast.For)] if gen else []
     drained += for_drained
+    drained = [argmap.get(d, d) for d in drained]
     if anon_advance is not None:
         rep.violation("R20.3", construct(en, text="iterable.__iter__().__next__() then yield from iterable"), where(en, anon_advance),
                       "the iterator that is advanced to obtain the first chunk is a temporary; the body is then re-iterated from the iterable itself: "
@@ -258,7 +273,7 @@ def run(p: Program, rep: Report, tier: str) -> None:
     else:
         rep.violation("R20.3", construct(en, text=f"advanced {advanced} drained {drained}"), where(en),
                       "the object drained after the first chunk is not the iterator that was advanced (first chunk duplicated or lost)")
-    ys = [ast.unparse(n.value) for n in ast.walk(gen.node) if isinstance(n, ast.Yield) and n.value is not None] if gen else []
+    ys = [argmap.get(ast.unparse(n.value), ast.unparse(n.value)) for n in ast.walk(gen.node) if isinstance(n, ast.Yield) and n.value is not None] if gen else []
     if ys[:1] == ["first_chunk"] or (ys and any(isinstance(n, ast.Assign) and ast.unparse(n.targets[0]) == ys[0] for n in walk_shallow(en.node))):
         rep.ok("R20.3", "the forced first chunk is yielded first")
     else:
@@ -445,6 +460,15 @@ def run(p: Program, rep: Report, tier: str) -> None:
             if isinstance(n, ast.Compare) and len(n.ops) == 1 and isinstance(n.ops[0], (ast.Eq, ast.In)):
                 for x in [n.left] + n.comparators:
                     for c_ in ast.walk(x):
+                        if isinstance(c_, ast.Constant) and isinstance(c_.value, str) and c_.value.startswith("http.response."):
+                            handled.add(c_.value)
+    if cap is not None:
+        # a dispatch table at module level that the capture scans (`for name, copier in _BODY_COPIERS: if message["type"] == name`)
+        for n in ast.walk(cap.node):
+            if isinstance(n, ast.Name) and isinstance(n.ctx, ast.Load) and n.id in cap.module.constants:
+                tbl = cap.module.constants[n.id]
+                if isinstance(tbl, (ast.Tuple, ast.List, ast.Dict)):
+                    for c_ in ast.walk(tbl):
                         if isinstance(c_, ast.Constant) and isinstance(c_.value, str) and c_.value.startswith("http.response."):
                             handled.add(c_.value)
     if cap is None or not emitted:
